@@ -70,6 +70,7 @@ func (v Val) String() string {
 // ---------------- SMT context ----------------
 
 type Ctx struct {
+	cuts   []int // assertion indices at which a cut hides earlier loop-local facts
 	qdepth int // nesting depth of spec quantifiers (names of bound variables)
 	decls    []string
 	declared map[string]string // name -> sort
@@ -81,8 +82,25 @@ type Ctx struct {
 }
 
 type assertion struct {
-	term    string
-	comment string
+	term      string
+	comment   string
+	hideAfter int // > 0: not shown to obligations generated after this assertion index (facts local to a loop that ends in a cut)
+}
+
+// cutBetween: some assertion becomes hidden for obligations generated in (lo, hi]
+func (c *Ctx) cutBetween(lo, hi int) bool {
+	for _, h := range c.cuts {
+		if lo <= h && h < hi {
+			return true
+		}
+	}
+	return false
+}
+
+// visible: assertion k is part of the hypotheses of an obligation generated at index n
+func (c *Ctx) visible(k int, n int) bool {
+	h := c.asserts[k].hideAfter
+	return k < n && !(h > 0 && n > h)
 }
 
 func newCtx() *Ctx {
@@ -143,7 +161,7 @@ func (c *Ctx) assert(t Term, comment string) {
 	if t == "true" {
 		return
 	}
-	c.asserts = append(c.asserts, assertion{t, comment})
+	c.asserts = append(c.asserts, assertion{term: t, comment: comment})
 }
 
 // ---------------- term helpers ----------------
@@ -629,8 +647,8 @@ func (c *Ctx) scriptSliced(o *Obligation) string {
 	for _, d := range c.decls {
 		sb.WriteString(d + "\n")
 	}
-	for _, a := range c.asserts[:o.N] {
-		if strings.Contains(a.term, "(forall ") || strings.Contains(a.term, "(exists ") {
+	for k, a := range c.asserts[:o.N] {
+		if strings.Contains(a.term, "(forall ") || strings.Contains(a.term, "(exists ") || !c.visible(k, o.N) {
 			continue
 		}
 		sb.WriteString("(assert " + a.term + ")\n")
@@ -649,7 +667,10 @@ func (c *Ctx) script(o *Obligation, timeoutMs int, logic string) string {
 	for _, d := range c.decls {
 		sb.WriteString(d + "\n")
 	}
-	for _, a := range c.asserts[:o.N] {
+	for k, a := range c.asserts[:o.N] {
+		if !c.visible(k, o.N) {
+			continue
+		}
 		if a.comment != "" {
 			sb.WriteString("; " + a.comment + "\n")
 		}
